@@ -110,6 +110,10 @@ func VerifModel_httputil_ReverseProxy_ServeHTTP(p *httputil.ReverseProxy, rw htt
 	}
 	resp, err := p.Transport.RoundTrip(&out)
 	if err != nil {
+		if p.ErrorHandler != nil {
+			p.ErrorHandler(rw, &out, err)
+			return
+		}
 		rw.WriteHeader(http.StatusBadGateway)
 		return
 	}
